@@ -1,5 +1,10 @@
 (* RedactMongoLog, redactCommand, redactNamespace (src/anonymizer.go:46-221) and the
-   per-line pipeline parse -> redact -> print. *)
+   per-line pipeline parse -> redact -> print.
+
+   The Go code updates an ordered map in place with a sequence of Get / Set calls on
+   distinct, fixed keys. On a map (no duplicate keys: the parser builds maps with Set) such a
+   sequence is one pass that replaces the value of each dispatched key where it stands; the
+   model is written as that one pass. *)
 From Model Require Export Walker Hash Email PlanSummary JsonText.
 Open Scope string_scope.
 
@@ -7,57 +12,52 @@ Section Line.
 Variable tb : tables.
 Variable cs : consts.
 Variable c : cfg.
+Variable A : actions.
 
-Definition hn : string -> string := hash_name (repl c).
+Definition W := walk tb cs c is_email A.
 
-Definition W := walk tb cs c is_email hn.
-
-(* cmd.Set(key, f v) when the key is present and v has the expected kind *)
-Definition upd (cmd : list (string * json)) (k : string) (f : json -> option json) : list (string * json) :=
-  match oget cmd k with
-  | Some v => match f v with Some v' => oset cmd k v' | None => cmd end
-  | None => cmd
-  end.
-
-Definition q_obj (rfn : bool) (v : json) : option json :=
-  match v with JObj _ => Some (W (MQ rfn false MNil []) v) | _ => None end.
-Definition a_arr (rfn : bool) (v : json) : option json :=
-  match v with JArr _ => Some (W (MA "" rfn false false []) v) | _ => None end.
-Definition q_or_a (rfn : bool) (v : json) : option json :=
-  match v with JObj _ => q_obj rfn v | JArr _ => a_arr rfn v | _ => None end.
-Definition pipe (rfn : bool) (v : json) : option json :=
+Definition q_obj (rfn : bool) (v : json) : json :=
+  match v with JObj _ => W (MQ rfn false MNil []) v | _ => v end.
+Definition a_arr (rfn : bool) (v : json) : json :=
+  match v with JArr _ => W (MA "" rfn false false []) v | _ => v end.
+Definition q_or_a (rfn : bool) (v : json) : json :=
+  match v with JObj _ => q_obj rfn v | JArr _ => a_arr rfn v | _ => v end.
+Definition pipe (rfn : bool) (v : json) : json :=
   match v with
-  | JArr l => Some (JArr (map (fun st => W (MP rfn [] (is_in_search_stage tb st)) st) l))
-  | _ => None
+  | JArr l => JArr (map (fun st => W (MP rfn [] (is_in_search_stage tb st)) st) l)
+  | _ => v
   end.
 
-Definition redact_command (rfn : bool) (cmd : list (string * json)) : list (string * json) :=
-  let cmd := upd cmd "query" (q_obj rfn) in
-  let cmd := upd cmd "filter" (q_obj rfn) in
-  let cmd := upd cmd "sort" (q_obj rfn) in
-  let cmd := upd cmd "update" (q_or_a rfn) in
-  let cmd := upd cmd "updates" (a_arr rfn) in
-  let cmd := upd cmd "deletes" (a_arr rfn) in
-  let cmd := upd cmd "q" (q_obj rfn) in
-  let cmd := upd cmd "u" (q_or_a rfn) in
-  let cmd := match oget cmd "insert" with Some _ => upd cmd "documents" (a_arr rfn) | None => cmd end in
-  upd cmd "pipeline" (pipe rfn).
+Definition key_in (k : string) (ks : list string) : bool := existsb (String.eqb k) ks.
+
+(* redactCommand: what happens to the value of key k of a command document *)
+Definition cmd_member (rfn is_insert : bool) (k : string) (v : json) : json :=
+  if key_in k ["query"; "filter"; "sort"; "q"] then q_obj rfn v
+  else if key_in k ["update"; "u"] then q_or_a rfn v
+  else if key_in k ["updates"; "deletes"] then a_arr rfn v
+  else if String.eqb k "documents" then (if is_insert then a_arr rfn v else v)
+  else if String.eqb k "pipeline" then pipe rfn v
+  else v.
 
 Definition ns_fields : list string :=
   ["ns"; "aggregate"; "insert"; "find"; "update"; "collection"; "delete"; "$db"; "count"; "findAndModify";
    "findOneAndDelete"; "replace"; "findOneAndReplace"; "findOneAndUpdate"; "getIndexes"; "countDocuments"].
 
-Definition hash_str (v : json) : option json := match v with JStr s => Some (JStr (hn s)) | _ => None end.
+Definition hash_str (v : json) : json := match v with JStr s => JStr (a_hash A s) | _ => v end.
 
-Definition redact_namespace (cmd : list (string * json)) : list (string * json) :=
-  fold_left (fun cmd f => upd cmd f hash_str) ns_fields cmd.
+(* redactNamespace *)
+Definition ns_member (k : string) (v : json) : json := if key_in k ns_fields then hash_str v else v.
 
-Definition do_command (rfn : bool) (attr : list (string * json)) (k : string) : list (string * json) :=
-  upd attr k (fun v => match v with
-                       | JObj cmd => let cmd := redact_command rfn cmd in
-                                     Some (JObj (if nss c then redact_namespace cmd else cmd))
-                       | _ => None
-                       end).
+Definition has_key (l : list (string * json)) (k : string) : bool :=
+  match oget l k with Some _ => true | None => false end.
+
+Definition redact_command (rfn : bool) (cmd : list (string * json)) : list (string * json) :=
+  let ins := has_key cmd "insert" in
+  map (fun kv => let v1 := cmd_member rfn ins (fst kv) (snd kv) in
+                 (fst kv, if nss c then ns_member (fst kv) v1 else v1)) cmd.
+
+Definition do_command (rfn : bool) (v : json) : json :=
+  match v with JObj cmd => JObj (redact_command rfn cmd) | _ => v end.
 
 Definition gate (entry : list (string * json)) : bool :=
   let cv := str_of (oget entry "c") in
@@ -66,34 +66,41 @@ Definition gate (entry : list (string * json)) : bool :=
 Definition eager_on (attr : list (string * json)) : bool :=
   existsb (fun p => String.prefix p (str_of (oget attr "ns"))) (eager c).
 
-Definition redact_attr (g : bool) (attr : list (string * json)) : list (string * json) :=
-  let attr :=
-    if g then
-      let rfn := eager_on attr in
-      let attr := do_command rfn attr "originatingCommand" in
-      let attr := do_command rfn attr "cmd" in
-      let attr := do_command rfn attr "command" in
-      if rfn then upd attr "planSummary" (fun v => match v with JStr s => Some (JStr (redact_plan_summary (repl c) s)) | _ => None end)
-      else attr
-    else attr in
-  if nss c then upd attr "ns" hash_str else attr.
+Definition plan_value (v : json) : json :=
+  match v with JStr s => JStr (redact_plan_summary_with (a_hash A) s) | _ => v end.
 
-Definition redact_ip (attr : list (string * json)) : list (string * json) :=
-  upd attr "remote" (fun v => match v with JStr _ => Some (JStr "255.255.255.255:65535") | _ => None end).
+Definition ip_value (v : json) : json := match v with JStr _ => JStr ip_placeholder | _ => v end.
+
+(* what happens to the value of key k of attr; g = the line gate, rfn = field-name mode for this line *)
+Definition attr_member (g rfn : bool) (k : string) (v : json) : json :=
+  let v := if ips c && String.eqb k "remote" then ip_value v else v in
+  let v := if g && key_in k ["originatingCommand"; "cmd"; "command"] then do_command rfn v else v in
+  let v := if g && rfn && String.eqb k "planSummary" then plan_value v else v in
+  if nss c && String.eqb k "ns" then hash_str v else v.
+
+Definition redact_attr (g : bool) (attr : list (string * json)) : list (string * json) :=
+  let rfn := eager_on attr in
+  map (fun kv => (fst kv, attr_member g rfn (fst kv) (snd kv))) attr.
 
 Definition redact_entry (entry : list (string * json)) : list (string * json) :=
-  let entry := if ips c then upd entry "attr" (fun a => match a with JObj m => Some (JObj (redact_ip m)) | _ => None end) else entry in
-  upd entry "attr" (fun a => match a with JObj m => Some (JObj (redact_attr (gate entry) m)) | _ => None end).
+  let g := gate entry in
+  map (fun kv => (fst kv, if String.eqb (fst kv) "attr"
+                          then match snd kv with JObj a => JObj (redact_attr g a) | x => x end
+                          else snd kv)) entry.
 
 Definition redact_tree (t : json) : json :=
   match t with JObj entry => JObj (redact_entry entry) | _ => t end.
 
+End Line.
+
+Definition real_actions (cs : consts) (c : cfg) (enc : encf) : actions :=
+  {| a_str := subst_with enc; a_num := fun _ => c_num cs; a_bool := fun _ => c_bool cs;
+     a_hash := hash_name (repl c); a_generic := repl c |}.
+
 Inductive outcome := Out (o : list ascii) | Skip.
 
-Definition redact_line (l : list ascii) : outcome :=
+Definition redact_line (tb : tables) (cs : consts) (c : cfg) (enc : encf) (l : list ascii) : outcome :=
   match parse_line l with
-  | Some t => Out (print (redact_tree t))
+  | Some t => Out (print (redact_tree tb cs c (real_actions cs c enc) t))
   | None => Skip
   end.
-
-End Line.
